@@ -39,7 +39,7 @@ class C20(P.Property):
     assumptions = ["iteration order is compared exactly for PickledDict (a dict, pickled) and as sorted lists for DBMDict (dbm promises none)",
                    "DBMDict is never opened twice on one path at once (the class blocks on a per-path thread lock by design)"]
     probe_names = ["set_del_set_across_reopen", "clear_then_reopen", "clear_while_closed", "from_dict_aliasing",
-                   "refused_between_syncs", "op_while_closed", "ctx_exit", "create_existing", "open_missing", "dbm_session", "bystander_dict", "release"]
+                   "refused_between_syncs", "op_while_closed", "ctx_exit", "create_existing", "open_missing", "dbm_session", "bystander_dict", "release", "from_dict_other_mapping", "ctx_raise"]
 
     def setup(self):
         from .. import world
@@ -58,6 +58,8 @@ class C20(P.Property):
             for _ in range(rng.randint(0, 3)):
                 muts.append([rng.randrange(len(KEYS)), rng.choice(["set", "del"])])
             start = {"how": "from_dict", "src": src, "mutate_src": muts}
+            if rng.random() < 0.4:
+                start["src_type"] = rng.choice(["defaultdict", "OrderedDict", "subclass"])  # the source is some other kind of dict
         allops = ["set", "set", "setbad", "getitem", "get", "getd", "del", "del", "in", "len", "iter", "clear", "sync", "close",
                   "reopen", "reopen", "create_existing", "open_missing", "ctx", "release"]
         enabled = [o for o in allops if rng.random() < 0.75] or ["set", "reopen", "get"]
@@ -79,6 +81,8 @@ class C20(P.Property):
                 st.update(k=rng.randrange(len(KEYS)))
             elif op == "getd":
                 st.update(k=rng.randrange(len(KEYS) + 1))
+            elif op == "ctx" and rng.random() < 0.5:
+                st.update(raise_in=rng.choice(["missing", "del", "bad"]))
             steps.append(st)
         return {"property": "C20", "seed": seed, "cls": cls, "start": start, "steps": steps, "bystander": bystander}
 
@@ -122,8 +126,21 @@ class C20(P.Property):
             model = {}
         else:
             src = {KEYS[int(k)]: unhx(v) for k, v in start["src"].items()}
-            d = cls.from_dict(src, path)
             model = dict(src)
+            st_ = start.get("src_type")
+            if st_:
+                probe("from_dict_other_mapping")
+                import collections
+                if st_ == "defaultdict":
+                    src = collections.defaultdict(bytes, src)
+                elif st_ == "OrderedDict":
+                    src = collections.OrderedDict(src)
+                else:
+                    class Loud(dict):  # a dict subclass with its own idea of a missing key
+                        def __missing__(self, key):
+                            return b"missing-in-source"
+                    src = Loud(src)
+            d = cls.from_dict(src, path)
             for ki, how in start["mutate_src"]:
                 probe("from_dict_aliasing")
                 if how == "set":
@@ -323,6 +340,33 @@ class C20(P.Property):
                             mutated = True
                         closed = True
                         obs.append(("ctx-exit", "ok"))
+                        how = st.get("raise_in")
+                        if how:
+                            # an operation that is refused inside a with-block: the refusal leaves the block like it leaves any other statement
+                            probe("ctx_raise")
+                            o = outcome(lambda: cls.open(path))
+                            if o[0] != "ok":
+                                viol.append(V("C20.reopen", "UNUSABLE", f"step {si}: open after with-block failed: {o}", step=si))
+                                break
+                            d, closed = o[1], False
+                            reached = []
+
+                            def body():
+                                with d as d3:
+                                    if how == "missing":
+                                        d3[b"never-set"]
+                                    elif how == "del":
+                                        del d3[b"never-set"]
+                                    else:
+                                        d3[b"z"] = 7
+                                    reached.append(1)
+                            o = outcome(body)
+                            closed = True
+                            want = ("exc", "TypeError" if how == "bad" else "KeyError")
+                            if o != want or reached:
+                                viol.append(V("C20.refuse", "MODEL_MISMATCH", f"step {si}: a refused operation ({how}) inside a with-block gave {o!r:.60}"
+                                                                          f"{' and the block went on' if reached else ''}, a dict gives {want}", step=si))
+                                break
                         continue
                 elif op == "release":
                     # release() closes the dictionary and removes its file: from then on the path is a missing one
